@@ -1907,7 +1907,6 @@ func libraryCall(name string, args []any) (any, *EvalError, bool) {
 	return nil, nil, false
 }
 
-
 // runInit evaluates the initialiser of a module package once, tolerantly: what cannot be evaluated (a regular
 // expression compiled at start-up, a table filled from another package) poisons the variables it is stored into,
 // and only a read of such a variable ends an evaluation.
